@@ -40,6 +40,8 @@ def main():
     a = ap.parse_args()
     wt = a.wt
     md = os.path.join(wt, "mutants", a.mutant)
+    if a.skip_confirm and not os.path.exists(md):
+        md = os.path.join(VERIF, "seeded", a.seed_id)
     patch = os.path.join(md, "patch.diff")
     demo = os.path.join(md, a.demo_file)
     env = dict(os.environ, CARGO_TARGET_DIR=os.path.join(wt, "target"), CARGO_NET_OFFLINE="true")
@@ -115,15 +117,23 @@ def main():
     undecided = sorted(p for p, r in results.items() if r["rc"] == 2)
     dst = os.path.join(VERIF, "seeded", a.seed_id)
     os.makedirs(dst, exist_ok=True)
-    shutil.copy(patch, os.path.join(dst, "patch.diff"))
-    shutil.copy(demo, os.path.join(dst, os.path.basename(demo)))
-    if os.path.exists(os.path.join(md, "README.md")):
-        shutil.copy(os.path.join(md, "README.md"), os.path.join(dst, "README.md"))
+    if os.path.abspath(md) != os.path.abspath(dst):
+        shutil.copy(patch, os.path.join(dst, "patch.diff"))
+        shutil.copy(demo, os.path.join(dst, os.path.basename(demo)))
+        if os.path.exists(os.path.join(md, "README.md")):
+            shutil.copy(os.path.join(md, "README.md"), os.path.join(dst, "README.md"))
+    old = {}
+    if a.skip_confirm and os.path.exists(os.path.join(dst, "meta.json")):
+        old = json.load(open(os.path.join(dst, "meta.json")))
+        confirm = old.get("confirmation", confirm)
+        ran = old.get("what_i_ran", ran)
+        if not a.needs:
+            a.needs = old.get("needs_to_manifest", "")
     meta = {
         "seed_id": a.seed_id,
         "breaks_property": a.prop,
         "needs_to_manifest": a.needs,
-        "demo": {"file": os.path.basename(demo), "placement": "%s %s" % (a.demo_mode, a.demo_target), "test_filter": a.demo_filter, "crate": a.crate, "features": a.features},
+        "demo": old.get("demo") or {"file": os.path.basename(demo), "placement": "%s %s" % (a.demo_mode, a.demo_target), "test_filter": a.demo_filter, "crate": a.crate, "features": a.features},
         "confirmation": confirm,
         "what_i_ran": ran,
         "checks": {"caught_by": caught, "undecided_exit2": undecided, "target_property_caught": a.prop in caught, "results": results},
